@@ -6,7 +6,7 @@ cd $ROOT
 patches=("$@"); [ ${#patches[@]} -eq 0 ] && patches=($ROOT/sensitivity/patches/*.diff)
 printf "%-34s %s\n" patch "C06 C07 C08 C17 C18"
 for p in "${patches[@]}"; do
-  git -C /repo checkout -q -- . ; 
+  git -C /repo checkout -q -- . ; git -C /repo clean -fdq src tests ; 
   if ! git -C /repo apply "$p" 2>/dev/null; then printf "%-34s apply-failed\n" "$(basename $p .diff)"; continue; fi
   row=""
   for c in ${CHECKS:-C06 C07 C08 C17 C18}; do
@@ -14,7 +14,7 @@ for p in "${patches[@]}"; do
     n=$(grep -c '^VIOLATION' $ROOT/work/sens-$c.log)
     row="$row $c:$rc/$n"
   done
-  git -C /repo checkout -q -- .
+  git -C /repo checkout -q -- . ; git -C /repo clean -fdq src tests
   printf "%-34s %s\n" "$(basename $p .diff)" "$row"
 done
 git -C /repo status --short
